@@ -309,8 +309,6 @@ class Inliner:
                     for x in st.body:
                         if isinstance(x, FN) and f"{st.name}.{x.name}" not in known:
                             new.setdefault(st.name, {})[x.name] = x
-            if not new:
-                continue
             for st in m.tree.body:
                 if isinstance(st, FN):
                     self._inline_in(m, None, st, new)
@@ -318,7 +316,8 @@ class Inliner:
                     for x in st.body:
                         if isinstance(x, FN):
                             self._inline_in(m, st, x, new)
-            self._drop_inlined(m, new)
+            if new:
+                self._drop_inlined(m, new)
         return self.done
 
     def _drop_inlined(self, m, new):
@@ -359,10 +358,74 @@ class Inliner:
                 self.done.append((m.name, hname, "<inlined helper dropped>", owner or "<module>"))
 
     def _inline_in(self, m, cnode, fn, new):
+        # local functions defined at the top level of fn's body that are only ever called (a refactor's `def resolve(x): ...` used in a
+        # comprehension or a loop) are treated like helpers introduced after the reference tree - unless the reference function has them
+        known_here = set(KNOWN.get(m.name, ())) if KNOWN else set()
+        qual = f"{cnode.name}.{fn.name}" if cnode is not None else fn.name
+        local_defs = {}
+        if qual in known_here:
+            try:
+                from .canon_table import LOCALS as _LOC
+                ref_locals = set(_LOC.get((m.name, qual), ()))
+            except Exception:
+                ref_locals = None
+            if ref_locals is not None:
+                for g in fn.body:
+                    if isinstance(g, ast.FunctionDef) and g.name not in ref_locals and not g.decorator_list and _inlinable_shape(g) \
+                            and not any(isinstance(n, (ast.Nonlocal, ast.Global)) for n in ast.walk(g)):
+                        refs = [n for n in ast.walk(fn) if isinstance(n, ast.Name) and n.id == g.name]
+                        calls = [n for n in ast.walk(fn) if isinstance(n, ast.Call) and isinstance(n.func, ast.Name) and n.func.id == g.name]
+                        if calls and len(refs) == len(calls) and not any(isinstance(n, ast.Name) and n.id == g.name for n in ast.walk(g)):
+                            local_defs[g.name] = g
+        if not new and not local_defs:
+            return
+        if local_defs:
+            new = dict(new)
+            new[None] = {**new.get(None, {}), **local_defs}
+            self._comprehensions_to_loops(fn, set(local_defs))
         for _ in range(6):       # helpers calling helpers
             if not self._one_pass(m, cnode, fn, new):
                 break
+        for name, g in local_defs.items():
+            if g in fn.body and not any(isinstance(n, ast.Name) and n.id == name for n in ast.walk(fn)):
+                fn.body.remove(g)
+                self.done.append((m.name, fn.name, "<local function inlined and dropped>", name))
         ast.fix_missing_locations(fn)
+
+    def _comprehensions_to_loops(self, fn, names):
+        """`x = [g(a) for v in it if c]` with g a local function about to be inlined -> `x = []` + loop with `x.append(g(a))`"""
+        stack = [fn]
+        while stack:
+            node = stack.pop()
+            for f_ in ("body", "orelse", "finalbody"):
+                b = getattr(node, f_, None)
+                if not (isinstance(b, list) and b and isinstance(b[0], ast.stmt)):
+                    continue
+                i = 0
+                while i < len(b):
+                    st = b[i]
+                    if isinstance(st, ast.Assign) and len(st.targets) == 1 and isinstance(st.targets[0], ast.Name) and isinstance(st.value, ast.ListComp) \
+                            and len(st.value.generators) == 1 and not st.value.generators[0].is_async \
+                            and any(isinstance(n, ast.Call) and isinstance(n.func, ast.Name) and n.func.id in names for n in ast.walk(st.value.elt)):
+                        gen = st.value.generators[0]
+                        t = st.targets[0].id
+                        app = ast.Expr(value=ast.Call(func=ast.Attribute(value=ast.Name(id=t, ctx=ast.Load()), attr="append", ctx=ast.Load()), args=[st.value.elt], keywords=[]))
+                        body = [app]
+                        for c in reversed(gen.ifs):
+                            body = [ast.If(test=c, body=body, orelse=[])]
+                        loop = ast.For(target=gen.target, iter=gen.iter, body=body, orelse=[])
+                        init = ast.Assign(targets=[ast.Name(id=t, ctx=ast.Store())], value=ast.List(elts=[], ctx=ast.Load()))
+                        for x in (init, loop):
+                            ast.copy_location(x, st)
+                            ast.fix_missing_locations(x)
+                        b[i:i + 1] = [init, loop]
+                        i += 2
+                        continue
+                    if not isinstance(st, FN + (ast.ClassDef,)):
+                        stack.append(st)
+                    i += 1
+            for h in getattr(node, "handlers", []) or []:
+                stack.append(h)
 
     def _one_pass(self, m, cnode, fn, new):
         changed = False
